@@ -13,7 +13,7 @@ var (
 	idPool  = []string{"a", "b", "x1", "foo", "Bar", "r", "e", "rr", "i", "e5", "notx", "In2", "R", "returned", "zz9"}
 	numPool = []string{"0", "1", "42", "3.14", "1e+5", "007", "2.5e+10", "123456789", "0.5", "10"}
 
-	qAtoms   = []string{"a", "xyz", " ", "é", "日本", "😀", `\n`, `\t`, "#", "/*", "*/", "\t", "\r", "OTHERQ", `\"`, `\\x`, "{{a}}", "//"}
+	qAtoms   = []string{"a", "xyz", " ", "é", "日本", "😀", `\n`, `\t`, "#", "/*", "*/", "\t", "\r", "OTHERQ", `\"`, `\\x`, "//"}
 	rAtoms   = []string{"a", " ", "\n", "\r\n", "é", "日本", "😀", `\`, "#", "/*", "*/", "\t", "OTHERQ", "\n\n", "  ", "\n  ", "x := 1", `\n`}
 	lcAtoms  = []string{"", " c", "é", "日本", "\"", "'", "/*", "*/", "\t", "\r", "#", "r\"", " x := 1", "😀", " "}
 	bcAtoms  = []string{"", " c ", "\n", "\r\n", "é", "日", "😀", "*", "/", "#", "\"", "'", "\t", " * ", "\n\n", "r'", "\n   ", "x := 1", "\r"}
